@@ -10,6 +10,8 @@ bounded: parser.number on every literal spelling up to a stated length; the prec
 import itertools
 import z3
 from contracts.common import *  # noqa
+from contracts import structure
+from contracts.structure import *  # noqa
 from contracts import common
 from contracts.insn import new, leaf_value, ctx
 from contracts import deferred_c
@@ -438,6 +440,8 @@ def units(tier):
         for lz in ((False,), (True,)):
             us.append(("resolve[%s,%s]" % (n, lz), "unit_resolve", dict(name=n, lz=lz)))
             us.append(("resolve-again[%s,%s]" % (n, lz), "unit_resolve_again", dict(name=n, lz=lz)))
+    # whole programs: the statement holds wherever a statement stands (repeat body, included / linked file, any block) - contracts/structure.py
+    us += structure.units()
     return us
 
 
@@ -488,6 +492,9 @@ def replay_again(cfg, w, tree):
 
 
 def replay(o, tree):
+    r_ = structure.replay(o, tree)
+    if r_ is not None:
+        return r_
     from spec import expr_spec as spec
     cfg = o.get("cfg") or {}
     w = o.get("witness") or {}
